@@ -402,7 +402,13 @@ func TestC08(t *testing.T) {
 					}
 					r := hello.Record(ct, 0x0303, b)
 					if rapid.IntRange(0, 9).Draw(t, label+"_lielen") == 0 {
-						binary.BigEndian.PutUint16(r[3:], uint16(uniform(t, label+"_lv", 1<<16)))
+						// declared length that lies: weighted on the limits of RFC 8446 5.1/5.2
+						// (2^14, 2^14+256, the TLS 1.2 limit 2^14+2048) and their neighbours
+						lv := uniform(t, label+"_lv", 1<<16)
+						if rapid.IntRange(0, 2).Draw(t, label+"_lvb") != 0 {
+							lv = []int{16384, 16385, 16386, 16639, 16640, 16641, 16642, 17000, 18431, 18432, 18433, 20000, 32767, 32768, 65535}[uniform(t, label+"_lvi", 15)]
+						}
+						binary.BigEndian.PutUint16(r[3:], uint16(lv))
 					}
 					out = append(out, r...)
 				}
